@@ -19,6 +19,7 @@ Per remote ADDRESS the session forwards exactly these events (`handle_event`), s
 event grammar for sessions with one endpoint per address; timing (keep-alives, the two-second
 default) stays with the monitor.
 -/
+import GgrsModel.Model.Inventory
 import GgrsModel.Proofs.Endpoint
 import GgrsModel.Proofs.Events
 import GgrsModel.Model.P2P
